@@ -1214,9 +1214,24 @@ fn vp_native_redirect_across_no_proxy_boundary_body() {
     settle(&plog, 1);
     let p = plog.lock().unwrap().clone();
     assert_eq!(p.len(), 1); assert_eq!(p[0].first_line, "GET http://external.test/ext HTTP/1.1");
+    // a hop whose host is an address rather than a name is no different: with nothing exempting it, it goes through the proxy
+    let mut ip_cases = 0u64;
+    for status in [302u16, 307, 308] { for target_host in ["127.0.0.1", "[::1]"] {
+        let (plog, olog) = (Arc::new(Mutex::new(Vec::new())), Arc::new(Mutex::new(Vec::new())));
+        let origin = serve_early(olog.clone(), |_, _| resp(200, None, "direct"));
+        let th = target_host.to_string();
+        let proxy = serve_early(plog.clone(), move |line, _| if line.contains("/start") { resp(status, Some(&format!("http://{}:{}/landing?x=1", th, origin)), "") } else { resp(200, None, "via proxy") });
+        let settings = crate::ProxySettings::builder().http_proxy(Url::parse(&format!("http://127.0.0.1:{}", proxy)).unwrap()).add_no_proxy_host("exempt.test").build();
+        let mut s = crate::Session::new(); s.proxy_settings(settings);
+        let r = s.post("http://far.test/start").header("X-Caller", "keep-me").text("body").send().unwrap_or_else(|e| panic!("{} to an address behind the proxy: {}", status, e));
+        ip_cases += 1; crate::verif_native_watchdog::progress();
+        let (p, o): (Vec<String>, Vec<String>) = (plog.lock().unwrap().iter().map(|x: &Seen| x.first_line.clone()).collect(), olog.lock().unwrap().iter().map(|x: &Seen| x.first_line.clone()).collect());
+        assert!(o.is_empty() && p.len() == 2 && p[1].contains(&format!(" http://{}:{}/landing?x=1 ", target_host, origin)), "a {} redirect to http://{}:{}/ with a proxy configured and nothing exempting it: the proxy saw {:?}, the address itself saw {:?}", status, target_host, origin, p, o);
+        assert_eq!(r.text().unwrap(), "via proxy");
+    } }
     // the proxy chosen for a hop cannot be reached: whatever the exchange does then, a server that is not that proxy never receives
     // the request meant for the proxy (absolute-form target, the proxy's Host); a request that does reach the hop's own host names it
-    let mut cases = 2u64;
+    let mut cases = 2u64 + ip_cases;
     for status in [302u16, 307] {
         let dead = 1u16;   // a privileged port nothing listens on and no test is ever handed: connecting is refused at once
         let blog = Arc::new(Mutex::new(Vec::new())); let alog = Arc::new(Mutex::new(Vec::new()));
